@@ -283,6 +283,7 @@ def run(ctx):
     else:
         ctx.violated(r3, mg, "init_pars[index] = val", "fixed parameters do not start (and hence stay) at their fixed value in Minuit", node=mg.node)
 
+    _minuit_minimize_history(ctx, r3, repo)
     _optimizers_interpreted(ctx, r3, repo)
 
     # ------------------------------------------------------------ R4
@@ -557,6 +558,52 @@ def _optimizers_interpreted(ctx, rid, repo):
                 ctx.holds(rid, f"{OPT}opt_minuit.py::minuit_optimizer._get_minimizer [{lab}]", "start = [v0, i1]; limits = bounds; fixed = [True, False]")
         except errs as e:
             ctx.unrecognised(rid, mc_, f"minuit_optimizer._get_minimizer [{lab}]", f"not interpretable: {type(e).__name__}: {e}")
+
+
+def _minuit_minimize_history(ctx, rid, repo):
+    """minuit_optimizer._minimize, four fits on ONE optimizer object: what Minuit is configured with at migrad() is this
+    call's options or the optimizer's configured defaults -- never what an earlier fit was given."""
+    from ..objmodel import Instance, World
+    at, c = Poly.atom, Poly.const
+    mc_ = repo.cls(OPT + "opt_minuit.py", "minuit_optimizer")
+    mm = mc_.methods.get("_minimize")
+    if mm is None:
+        ctx.unrecognised(rid, mc_, "minuit_optimizer._minimize", "not found")
+        return
+    ctx.touch(mm)
+    try:
+        rec = []
+
+        def migrad(recv, a, k):
+            if not (isinstance(recv, Obj) and recv.name == "MINUIT"):
+                from ..alg import NotHandled
+                raise NotHandled()
+            rec.append({"tol": recv.attrs.get("tol"), "strategy": recv.attrs.get("strategy"), "ncall": k.get("ncall", a[0] if a else None)})
+            return None
+
+        w = World({"__strict__": True, ".migrad": migrad, ".hesse": lambda r_, a, k: None, ".correlation": lambda r_, a, k: Obj("CORR"), "OptimizeResult": lambda a, k: Obj("RESULT", dict(k))},
+                  module_env={"exceptions": Obj("exceptions"), "scipy": Obj("scipy"), "iminuit": Obj("iminuit")})
+        w.add_class(mc_)
+        inst = Instance(mc_)
+        defaults = {"maxiter": at("DEFAULT_MAXITER"), "strategy": None, "tolerance": at("DEFAULT_TOL"), "errordef": c(1), "steps": c(1000), "verbose": False, "name": "minuit"}
+        inst.attrs.update(defaults)
+        plan = (("first fit, tolerance=T1", {"tolerance": at("T1")}), ("second fit, defaults", {}), ("third fit, strategy=2 maxiter=M3", {"strategy": c(2), "maxiter": at("M3")}), ("fourth fit, defaults", {}))
+        for lab, opts in plan:
+            minimizer = Obj("MINUIT", {"valid": True, "fmin": Obj("fmin"), "covariance": Obj("COV"), "errors": Obj("ERR"), "values": Obj("VALUES"), "fval": at("FVAL"), "nfcn": c(10), "ngrad": c(0)})
+            w.call_method(inst, "_minimize", [minimizer, Obj("FUNC"), [at("x0"), at("x1")]], {"do_grad": False, "bounds": Obj("BOUNDS"), "fixed_vals": [], "options": dict(opts)})
+            got = rec[-1]
+            want = {"tol": str(to_poly(opts.get("tolerance", at("DEFAULT_TOL")))), "strategy": str(to_poly(opts.get("strategy", c(1)))), "ncall": str(to_poly(opts.get("maxiter", at("DEFAULT_MAXITER"))))}
+            g = {k_: (str(to_poly(v_)) if v_ is not None else None) for k_, v_ in got.items()}
+            changed = sorted(k_ for k_, v_ in defaults.items() if not (inst.attrs.get(k_) is v_ or inst.attrs.get(k_) == v_))
+            site = f"{OPT}opt_minuit.py::minuit_optimizer._minimize [{lab}]"
+            if g != want:
+                ctx.violated(rid, mm, f"Minuit configuration [{lab}]", "Minuit runs with settings (tolerance / strategy / call limit) that are neither this fit's options nor the optimizer's configured defaults: an option given to an EARLIER fit on the same optimizer object stays in force", expected=str(want), found=str(g))
+            elif changed:
+                ctx.violated(rid, mm, f"optimizer state [{lab}]", f"a fit rewrites the optimizer's configured {changed}: a per-call option becomes the default of every later fit with that optimizer", expected="configured defaults untouched", found=str({k_: str(inst.attrs.get(k_)) for k_ in changed}))
+            else:
+                ctx.holds(rid, site, f"migrad with {want}; configured defaults untouched")
+    except (Undecided, KeyError, TypeError, ValueError, IndexError, AttributeError) as e:
+        ctx.unrecognised(rid, mc_, "minuit_optimizer._minimize", f"not interpretable: {type(e).__name__}: {e}")
 
 
 def jax_objective_point(ctx, rid, repo, table, mk, shim):
